@@ -198,6 +198,24 @@ def make_cases(ctx, first):
                 frm = rng.choice(["../outside/layout", "../../outside/layout", tgt + "/../../outside/layout", "a/../" + w.repo(), "..", "/", "a//b", ".", "a/."])
                 w.add(upload_post(tgt, mount=d, frm=frm))
                 w.add(blob_get(tgt, d))
+        if store == "dir" and i % 6 == 2:
+            # deeply nested names at the edge of what the file system can address: the directory of the repository and its sha256
+            # blobs fit into a path, a sha512 blob does not (the length of the root directory is not known here: a ladder of names)
+            k0 = len(w.steps)
+            for total in rng.sample(range(3700, 4040, 40), 4):
+                comps, left = [], total
+                while left > 0:
+                    c = min(left, rng.randrange(180, 250))
+                    comps.append("n" * c)
+                    left -= c + 1
+                long = "/".join(comps)
+                absent = b"never-stored-%d-%d" % (i, total)
+                w.add(upload_post(long, digest=dg("sha256", b"x"), body=b"x"))
+                w.add(upload_post(long, mount=dg("sha512", absent), frm=rng.choice(repos)))
+                w.add(blob_get(long, dg("sha512", absent)))
+                w.add(upload_post(long, mount=dg("sha256", absent), frm=rng.choice(repos)))
+            for s_ in w.steps[k0:]:
+                s_["model"] = "(skip)"          # (whether such a name can be stored at all depends on the root directory's own length)
         if snap:
             # snapshots of the whole case directory (root and its surroundings) around every request
             st2 = [special("snapshot", kind="case")]
